@@ -1173,10 +1173,14 @@ class CParser:
     # BNF: struct_declarator : declarator? ':' constant_expression
     #                        | declarator (':' constant_expression)?
     def _parse_struct_declarator(self) -> "_DeclInfo":
-        if self._accept("COLON"):
+        colon_tok = self._accept("COLON")
+        if colon_tok is not None:
             bitsize = self._parse_constant_expression()
+            # An unnamed bit-field has no name token; locate it at its ':'.
             return {
-                "decl": c_ast.TypeDecl(None, None, None, None),
+                "decl": c_ast.TypeDecl(
+                    None, None, None, None, self._tok_coord(colon_tok)
+                ),
                 "init": None,
                 "bitsize": bitsize,
             }
